@@ -375,6 +375,47 @@ func checkNoDynamicScoping(p *Prog, l *Ledger) {
 		}
 	}
 	l.Discharge(rule, "Callable.Call", "", "the callee receives the interpreter and the argument values only", true)
+	// what a clause evaluates is part of the construct it is the clause of: a clause that evaluates a node it got hold of
+	// some other way (the body of the function being called, say) runs that node in the scope of the current construct —
+	// the callee would see the caller's variables.  Function bodies are evaluated by Function.Call only.
+	if cs := getClauses(p); len(cs.Probs) == 0 {
+		n := 0
+		for _, m := range cs.all() {
+			if m == nil {
+				continue
+			}
+			own := "e"
+			switch m {
+			case cs.FCall:
+				own = "f.Declaration"
+			case cs.Interp:
+				own = "statements"
+			}
+			bad := map[string]*Event{}
+			for _, e := range m.G.Events("eval") {
+				n++
+				c := e.KV["child"]
+				if strings.HasPrefix(c, own+".") || strings.HasPrefix(c, own+"[") || strings.HasPrefix(c, "obj:") {
+					continue
+				}
+				bad[c] = e
+			}
+			var cs2 []string
+			for c := range bad {
+				cs2 = append(cs2, c)
+			}
+			sort.Strings(cs2)
+			for _, c := range cs2 {
+				l.Violate(rule, m.Scenario+"#evaluates("+c+")", bad[c].Pos, "the clause evaluates "+c+", which is not a part of the construct being evaluated, in "+bad[c].KV["env"]+": code from elsewhere (a function's body) would run in the scope of this construct and see its variables")
+			}
+			if len(bad) == 0 {
+				l.Discharge(rule, m.Scenario+"#own-subtree", "", "every nested evaluation is of a part of the construct itself", len(m.G.Events("eval")) > 0)
+			}
+		}
+		if n < 30 {
+			l.Violate(rule+"/vacuity", "nested evaluations", "", fmt.Sprintf("only %d nested evaluations seen in the clauses (expected >= 30)", n))
+		}
+	}
 	// Interpreter fields of environment type are written only in NewInterpreter
 	for _, fn := range p.ModuleFuncs() {
 		fk := p.FuncKey(fn)
